@@ -193,7 +193,12 @@ def rule_case(run):
     # underground
     ug = _loop_over(fi, 'geo.block_name_list[geo.num_atmosphere_blocks:]')
     key = 't2incon.transfer_from :: every underground block assigned from its mapped source block'
-    if len(ug) != 1: run.unknown(key, 'loop over the underground block names not found', where=fi.where())
+    part = [n for n in walk_no_nested(fi.node) if isinstance(n, ast.For) and 'block_name_list' in norm(n.iter)]
+    if len(ug) != 1 and len(part) == 1:
+        run.violated(key, 'the underground loop runs over `%s`; the target\'s underground blocks are '
+                     'geo.block_name_list[geo.num_atmosphere_blocks:]: with different atmosphere types some target blocks '
+                     'get no state (or atmosphere blocks are overwritten)' % norm(part[0].iter), where=fi.where(part[0]))
+    elif len(ug) != 1: run.unknown(key, 'loop over the underground block names not found', where=fi.where())
     else:
         b = ug[0].target.id
         asg = [x for x in ug[0].body if isinstance(x, ast.Assign) and isinstance(x.targets[0], ast.Subscript) and norm(x.targets[0]) == 'self[%s]' % b]
